@@ -175,7 +175,7 @@ def run(ctx):
     for x in roots:
         r0.instance({"root": x})
 
-    rp, seen, inv = panic_rule(ctx, chk, "C04", "P-no-reachable-panic", roots, floor=150)
+    rp, seen, inv = panic_rule(ctx, chk, "C04", "P-no-reachable-panic", roots, floor=40)
     chk.analysed["reachable_functions"] = len([n for n in seen if n in F.fns])
     recursion_rule(ctx, chk, "C04", "S-no-recursion", seen)
     from .. import loops
